@@ -58,6 +58,10 @@ def shape_label(tape_shape):
 
 def build(tier, seed):
     plan = Plan("C20", level="other")
+    try:
+        import pennylane  # noqa: F401  (loaded once here: the forked obligation workers replay counter-models on the real code)
+    except Exception:  # pylint: disable=broad-except
+        pass
     plan.explanation = ("The real bodies of the splitter and of the post-processing functions are executed symbolically on concrete tape "
                         "SHAPES with symbolic coefficients, offsets, results and observable identities (dictionary lookups fork on the "
                         "equality of measurement keys); each returned dictionary / tuple is compared with the sum formula over the "
@@ -302,7 +306,7 @@ def build(tier, seed):
     fc_split = FnContract(w, "_split_all_multi_term_obs_mps", split_cases)
     X.use_xinterp(fc_split)
     plan.fn_under_contract(SNC, "_split_all_multi_term_obs_mps")
-    for ob in obligations_for("C20", fc_split, tier, finding={f13_label: "F13"}):
+    for ob in obligations_for("C20", fc_split, tier):      # F13 is fixed in the repository: an ordinary obligation now
         plan.add(ob)
 
     # ---- post-processing: _sum_terms, _processing_fn_no_grouping, _processing_fn_with_grouping ---------------------------------------------
